@@ -229,7 +229,23 @@ def c15(run):
                                                   "CFList expectation is not asserted while a zero-frequency custom slot exists"])
 
 
-PROPS = {"C01": c01, "C14": c14, "C15": c15, "C12": c12, "C13": c13, "C05": c05, "C02": c02, "C03": c03, "C04": c04, "C06": c06, "C07": c07, "C08": c08}
+def c11(run):
+    run.design_check("NetIDModel", workers=8, env={"VERIF_GEN": run.tier})
+    if run.tier == "thorough":
+        t = run.record("ident", "allnetids", n=1, timeout=7200)
+        run.validate("ident", t, "Trace_ident", label="(V) ALL 2^24 NetIDs x address patterns", chunk=120000, xmx="4g", timeout=7200)
+        run.exhaustive.append("all 2^24 NetIDs")
+    else:
+        t = run.record("ident", "netids", n=50000)
+        run.validate("ident", t, "Trace_ident", label="(V) structured + random NetIDs x address patterns", chunk=8000)
+    t = run.record("ident", "repr", n=T(run, 1500, 60000))
+    run.validate("ident", t, "Trace_ident", label="(V) text/binary/database representations", chunk=4000)
+    run.require_kinds("ident/prefix", "ident/repr")
+    run.rc = run.finish(assumptions=["addressing rules of LoRaWAN 1.1 sec. 6.1.1 / Backend Interfaces in spec/lorawan/NetID.tla", "DevAddr/identifier values are seeded samples (NetIDs exhaustive in the thorough tier)"],
+                        exhaustive=False)
+
+
+PROPS = {"C01": c01, "C11": c11, "C14": c14, "C15": c15, "C12": c12, "C13": c13, "C05": c05, "C02": c02, "C03": c03, "C04": c04, "C06": c06, "C07": c07, "C08": c08}
 
 
 def replay(run, path):
